@@ -14,7 +14,7 @@ RULE = ('random runnable models mixing registered Linear/Conv2d layers with unsu
         'identity for unregistered ones) before/after step(); K-FAC state before/after eval-mode passes; outputs and '
         'autograd gradients of a deep-copied model without K-FAC; the set of gradients that changed is compared with the '
         'write set predicted by the Lean registration model; non-trivial = ≥1 registered and ≥1 unregistered parametrised module'
-        '; inputs cloned and compared (aliasing), 1x1 / single-channel / channels_last convolutions, an empty-batch iteration, float16 factors with large activations, attribute names containing wrapper prefixes; the registered set is compared with the eligible set computed from the statement; autograd gradients compared up to rounding; pure float16 runs whose KL-clip statistic overflows to NaN while every gradient stays in range; float32 gradients of bfloat16/float16 weights (Tensor.grad_dtype)')
+        '; inputs cloned and compared (aliasing), 1x1 / single-channel / channels_last convolutions, an empty-batch iteration, float16 factors with large activations, attribute names containing wrapper prefixes; the registered set is compared with the eligible set computed from the statement; autograd gradients compared up to rounding; a Linear subclass owning a sub-layer (not a leaf), 3-d inputs with a transposition after a registered layer (non-contiguous output gradients); pure float16 runs whose KL-clip statistic overflows to NaN while every gradient stays in range; float32 gradients of bfloat16/float16 weights (Tensor.grad_dtype)')
 TRUSTED = [
     'Lean 4.33 kernel; axioms audited ⊆ {propext, Classical.choice, Quot.sound}',
     'hand-written models: KV.Reg (which modules are registered = the write set) and KV.Precond/KV.Spec (eval passes are no-ops)',
@@ -34,6 +34,24 @@ class Linear(torch.nn.Module):
 
     def forward(self, x):
         return torch.nn.functional.linear(x, self.weight * 0.5, self.bias)
+
+
+class GatedLinear(torch.nn.Linear):
+    """a torch.nn.Linear subclass that is NOT a leaf: it owns a sub-layer (only the sub-layer is eligible)"""
+
+    def __init__(self, i, o):
+        super().__init__(i, o)
+        self.gate = torch.nn.Linear(i, o)
+
+    def forward(self, x):
+        return torch.nn.functional.linear(x, self.weight, self.bias) * torch.sigmoid(self.gate(x))
+
+
+class Swap(torch.nn.Module):
+    """sequence-first <-> batch-first: the layer before it receives a transposed (non-contiguous) output gradient"""
+
+    def forward(self, x):
+        return x.transpose(0, 1)
 
 
 def gen_model(rng, dt):
@@ -62,6 +80,9 @@ def gen_model(rng, dt):
     else:
         feat = 4
     mods['fc1'] = nn.Linear(feat, 5, bias=rng.random() < 0.7)
+    seq = (not conv) and rng.random() < 0.35
+    if seq:
+        mods['swap'] = Swap()
     mods['norm'] = nn.LayerNorm(5)
     mods['act1'] = nn.Tanh()
     mods['drop'] = nn.Dropout(0.3)      # consumes the global RNG in training mode: K-FAC's hooks must not shift that stream
@@ -74,6 +95,8 @@ def gen_model(rng, dt):
     mods['partly'] = nn.Linear(5, 4)
     if rng.random() < 0.4:
         mods['eqlr'] = Linear(4, 4)        # unsupported module named like a supported one
+    if rng.random() < 0.4:
+        mods['gated'] = GatedLinear(4, 4)  # supported type, but not a leaf: its own weight/bias are outside the write set
     mods['head'] = nn.Linear(4, 3, bias=rng.random() < 0.7)
     order = list(mods)
     m = nn.Sequential()
@@ -83,7 +106,7 @@ def gen_model(rng, dt):
         p.requires_grad_(False)
     m.partly.bias.requires_grad_(False)
     m = m.to(dt)
-    x = torch.randn(6, cin, side, side) if conv else torch.randn(6, 4)
+    x = torch.randn(6, cin, side, side) if conv else (torch.randn(6, 3, 4) if seq else torch.randn(6, 4))
     if conv and rng.random() < 0.4:
         x = x.contiguous(memory_format=torch.channels_last)
     return m, x.to(dt), ['skip', rng.choice([r'adapter_module', r'^adapter_module\.fc$', r'_module\.'])]
